@@ -47,7 +47,7 @@ def m_source(base: str, order: int) -> str:
     return "\n".join(head) + "\n\n\n" + "\n\n".join(decls)
 
 
-def package(base: str, u: int, u2: int, order: int):
+def package(base: str, u: int, u2: int, order: int, ri: int = 0):
     sub = base == "reexported-by-init"
     files = {"__init__.py": ""}
     mrel = "inner/mmod.py" if sub else "mmod.py"
@@ -63,6 +63,8 @@ def package(base: str, u: int, u2: int, order: int):
         files["amod.py"] = TRAIL.format(body=content[u].replace("Unrelated", "UnrelatedA").replace("unrelated_fun", "unrelated_fun_a"), name="ARec")
     if u2:
         files["renamed_umod.py"] = content[u2]
+    if ri:      # the root __init__ re-exports the unrelated module's class that is named like the one M uses
+        files["__init__.py"] += "from .umod import Sibling\n"
     return files
 
 
@@ -71,7 +73,7 @@ START_U = {"rename-unrelated": 1, "change-unrelated": 1, "remove-unrelated": 1}
 
 def apply(kind, u):
     return {"add-plain": (1, 0, 1), "add-same-names": (3, 0, 1), "rename-unrelated": (0, u, 1), "change-unrelated": (2, 0, 1),
-            "remove-unrelated": (0, 0, 1), "permute-own": (u, 0, 2)}[kind]
+            "remove-unrelated": (0, 0, 1), "permute-own": (u, 0, 2), "reexport-unrelated-same-name": (3, 0, 1, 1)}[kind]
 
 
 def facts(r):
@@ -83,6 +85,8 @@ def facts(r):
             continue
         mod = f.pymodule or f.package
         if not (mod.endswith(".mmod") or mod == PKG or mod.endswith(".inner")):
+            continue
+        if rel.endswith("/Sibling.sdsstub"):      # the unrelated module's re-exported class: not a stub of M
             continue
 
         def decl(d):
@@ -103,8 +107,7 @@ def main(v: Verdict) -> None:
     for k, sc in enumerate(scs):
         u0 = START_U.get(sc["kind"], 0)
         a = package(sc["base"], u0, 0, 1)
-        u, u2, order = apply(sc["kind"], u0)
-        b = package(sc["base"], u, u2, order)
+        b = package(sc["base"], *apply(sc["kind"], u0))
         for tag, files in (("a", a), ("b", b)):
             jobs.append({"src": write_pkg(files, PKG), "opts": Opts(docstyle="NUMPYDOC"), "timeout": 300})
             meta.append((k, tag))
